@@ -90,6 +90,7 @@ SPECS = {
             ("q_overall", "q_overall", 1, "q_overall", "shelf heat flux"),
             ("T_bottom_BC", "T_bottom_BC", 1, "cool_T_bottom_BC", "ghost value below node 0 (cooling)"),
             ("q_e", "q_e", 1, "q_e", "q_e = -N_w dHe inside the window"),
+            ("solid_q_e", "q_e", 4, "solid_q_e", "q_e = -N_w dHe inside the window (solidification)"),
             ("T_top_BC", "T_top_BC", 1, "cool_T_top_BC", "ghost value above the top node (cooling)"),
             ("T_bottom", "T_bottom", 1, "cool_T_bottom", "cooling stencil, bottom node"),
             ("T_center", "T_center", 1, "cool_T_center", "cooling stencil, interior nodes"),
